@@ -9,7 +9,8 @@ import struct
 
 from ..cfg import cfg_of
 from ..model import AnalysisError, call_name, calls_in, dotted, norm
-from .. import rules
+from .. import inline, rules
+from .. import conds as cnd
 from ._dispatch import check_dispatcher
 from .c09 import check_bytequeue_wait
 from .c10 import check_send_message, check_block_send_info
@@ -119,7 +120,7 @@ def check_send(ctx):
     f = repo.method("SecsIProtocol", "_process_send_queue", inherited=False)
     ctx.touch(f)
     q = f.qualname
-    cfg = cfg_of(f.node)
+    cfg = cfg_of(inline.expanded(ctx, f, keep={"_process_received_data"}))
     heads = [n for n in cfg.nodes if n.kind == "test" and n.label == "while"]
     ctx.require(len(heads) == 1, f"{q}: send loop not found")
     H = heads[0]
@@ -151,8 +152,8 @@ def check_send(ctx):
     yields = [n for n in cfg.real_nodes() if any(call_name(c) == "self._process_received_data" for c in n.calls)]
     ok = len(yields) == 1
     if ok:
-        conds = [norm(t) for t, v in cfg.dominating_conditions(yields[0]) if v]
-        ok = any("self.ENQ" in c and "DeviceType.HOST" in c for c in conds) and not cfg.path_exists(yields[0], blocks[0], avoid=enq) if blocks else False
+        conds = [t for t, pol in cnd.facts(cfg, yields[0]) if pol]
+        ok = (any("self.ENQ" in c for c in conds) and any("DeviceType.HOST" in c for c in conds) and not cfg.path_exists(yields[0], blocks[0], avoid=enq)) if blocks else False
     ctx.ob("C17.P2", q, ok, "on ENQ contention the host yields and receives first" if ok else "the host does not yield on ENQ contention", key="contention", where=f.where)
     sd = repo.method("SerialConnection", "send_data", inherited=False)
     names = [call_name(c) for c in calls_in(sd.node)]
